@@ -71,3 +71,133 @@ Qed.
 Lemma translate_original m eff o v :
   In (eff, o) m -> (forall o', In (eff, o') m -> o' = o) -> translate m [(eff, v)] = [(o, v)].
 Proof. intros Hin Hu. unfold translate, orig_of. cbn. rewrite (alookup_in_unique m eff o Hin Hu). reflexivity. Qed.
+
+(* ---- the pipeline end to end, one level ---- *)
+Definition entries_of (rw : rwtab) (to : str) : list (str * str) :=
+  flat_map (fun e => if str_eqb e to then [] else [(e, to)]) (rw_of rw to).
+Definition m1 (rw : rwtab) (rcpts : list str) : list (str * str) := flat_map (entries_of rw) rcpts.
+
+Lemma translate_nil sts : translate [] sts = sts.
+Proof. unfold translate, orig_of. cbn. induction sts as [|[a b] l IH]; [reflexivity|]. cbn. rewrite IH. reflexivity. Qed.
+
+Lemma add_levels_one_fold to : forall effs accm acch,
+  fold_left (fun acc e => let r := add_levels [] e in
+               (zip_app (fst acc) ((if str_eqb e to then [] else [(e, to)]) :: fst r), snd acc ++ snd r))
+            effs (accm, acch)
+  = (fold_left (fun a e => zip_app a [if str_eqb e to then [] else [(e, to)]]) effs accm, acch ++ effs).
+Proof.
+  induction effs as [|e effs IH]; intros accm acch; cbn [fold_left].
+  - rewrite app_nil_r. reflexivity.
+  - cbn [add_levels fst snd]. rewrite IH. rewrite <- app_assoc. reflexivity.
+Qed.
+Lemma add_levels_one rw to :
+  add_levels [rw] to = (fold_left (fun a e => zip_app a [if str_eqb e to then [] else [(e, to)]]) (rw_of rw to) [], rw_of rw to).
+Proof. cbn [add_levels]. rewrite add_levels_one_fold. reflexivity. Qed.
+
+(* the per-level maps of a one-level pipeline: nothing, or one map *)
+Definition one_map (maps : list (list (str * str))) (m : list (str * str)) : Prop :=
+  (maps = [] /\ m = []) \/ maps = [m].
+Lemma one_map_zip maps m x : one_map maps m -> one_map (zip_app maps [x]) (m ++ x).
+Proof. intros [[-> ->]| ->]; right; reflexivity. Qed.
+Lemma fold_one_map to : forall effs maps m,
+  one_map maps m ->
+  one_map (fold_left (fun a e => zip_app a [if str_eqb e to then [] else [(e, to)]]) effs maps)
+          (m ++ flat_map (fun e => if str_eqb e to then [] else [(e, to)]) effs).
+Proof.
+  induction effs as [|e effs IH]; intros maps m H; cbn [fold_left flat_map].
+  - rewrite app_nil_r. exact H.
+  - rewrite app_assoc. apply IH. apply one_map_zip. exact H.
+Qed.
+Lemma one_map_zip2 a ma b mb : one_map a ma -> one_map b mb -> one_map (zip_app a b) (ma ++ mb).
+Proof.
+  intros [[-> ->]| ->] [[-> ->]| ->]; cbn; try (left; split; reflexivity); try (right; rewrite ?app_nil_r; reflexivity).
+Qed.
+Lemma pipe_maps_one rw : forall rcpts maps m,
+  one_map maps m ->
+  one_map (fold_left (fun acc r => zip_app acc (fst (add_levels [rw] r))) rcpts maps) (m ++ m1 rw rcpts).
+Proof.
+  induction rcpts as [|r rcpts IH]; intros maps m H; cbn [fold_left].
+  - unfold m1. cbn. rewrite app_nil_r. exact H.
+  - unfold m1. cbn [flat_map]. rewrite app_assoc. apply IH. apply one_map_zip2; [exact H|].
+    rewrite add_levels_one. cbn [fst]. apply (fold_one_map r (rw_of rw r) [] []). left. split; reflexivity.
+Qed.
+Lemma translate_levels_one maps m sts : one_map maps m -> translate_levels maps sts = translate m sts.
+Proof. intros [[-> ->]| ->]; cbn; [symmetry; apply translate_nil|reflexivity]. Qed.
+Lemma pipe_handed_one rw rcpts : pipe_handed [rw] rcpts = flat_map (rw_of rw) rcpts.
+Proof.
+  unfold pipe_handed. induction rcpts as [|r l IH]; [reflexivity|]. cbn [flat_map]. rewrite IH, add_levels_one. reflexivity.
+Qed.
+Lemma pipe_want_one rw rcpts : pipe_want [rw] rcpts = flat_map (fun r => map (fun _ => r) (rw_of rw r)) rcpts.
+Proof.
+  unfold pipe_want. induction rcpts as [|r l IH]; [reflexivity|]. cbn [flat_map]. rewrite IH, add_levels_one. reflexivity.
+Qed.
+
+Lemma NoDup_app_inv {A} (a b : list A) : NoDup (a ++ b) -> NoDup a /\ NoDup b /\ (forall x, In x a -> ~ In x b).
+Proof.
+  induction a as [|x a IH]; cbn; intros H.
+  - repeat split; [constructor|exact H|intros x []].
+  - inversion H as [|? ? Hn Hd]; subst. destruct (IH Hd) as [Ha [Hb Hab]]. repeat split.
+    + constructor; [|exact Ha]. intros Hin. apply Hn. apply in_or_app. left. exact Hin.
+    + exact Hb.
+    + intros y [->|Hy]; [intros Hin; apply Hn; apply in_or_app; right; exact Hin|apply Hab; exact Hy].
+Qed.
+(* an address handed on once comes from one client recipient *)
+Lemma handed_once_origin (f : str -> list str) : forall rcpts,
+  NoDup (flat_map f rcpts) ->
+  forall r r' e, In r rcpts -> In r' rcpts -> In e (f r) -> In e (f r') -> r = r'.
+Proof.
+  induction rcpts as [|a l IH]; intros Hn r r' e Hr Hr' He He'; [destruct Hr|].
+  cbn [flat_map] in Hn. destruct (NoDup_app_inv _ _ Hn) as [_ [Hl Hsep]].
+  destruct Hr as [->|Hr]; destruct Hr' as [->|Hr'].
+  - reflexivity.
+  - exfalso. apply (Hsep e He). apply in_flat_map. exists r'. split; assumption.
+  - exfalso. apply (Hsep e He'). apply in_flat_map. exists r. split; assumption.
+  - exact (IH Hl r r' e Hr Hr' He He').
+Qed.
+Lemma in_m1 rw rcpts e o : In (e, o) (m1 rw rcpts) <-> In o rcpts /\ In e (rw_of rw o) /\ e <> o.
+Proof.
+  unfold m1, entries_of. rewrite in_flat_map. split.
+  - intros [r [Hr Hin]]. apply in_flat_map in Hin. destruct Hin as [x [Hx Hin]].
+    destruct (str_eqb x r) eqn:E; [destruct Hin|]. destruct Hin as [Heq|[]]. inversion Heq; subst.
+    repeat split; try assumption. intros ->. rewrite str_eqb_refl in E. discriminate.
+  - intros [Ho [He Hne]]. exists o. split; [exact Ho|]. apply in_flat_map. exists e. split; [exact He|].
+    destruct (str_eqb e o) eqn:E; [apply str_eqb_eq in E; contradiction|left; reflexivity].
+Qed.
+Lemma alookup_none_notin (m : list (str * str)) e : (forall o, ~ In (e, o) m) -> alookup str_eqb e m = None.
+Proof.
+  induction m as [|[k v] l IH]; intros H; [reflexivity|]. cbn.
+  destruct (str_eqb e k) eqn:E.
+  - apply str_eqb_eq in E. subst k. exfalso. apply (H v). left. reflexivity.
+  - apply IH. intros o Hin. apply (H o). right. exact Hin.
+Qed.
+Lemma orig_of_handed rw rcpts r e :
+  NoDup (flat_map (rw_of rw) rcpts) -> In r rcpts -> In e (rw_of rw r) -> orig_of (m1 rw rcpts) e = r.
+Proof.
+  intros Hn Hr He. unfold orig_of. destruct (list_eq_dec N.eq_dec e r) as [->|Hne].
+  - rewrite alookup_none_notin; [reflexivity|]. intros o Hin. apply in_rev in Hin. apply in_m1 in Hin.
+    destruct Hin as [Ho [Hin Hne]]. apply Hne. symmetry. exact (handed_once_origin _ _ Hn o r r Ho Hr Hin He).
+  - rewrite (alookup_in_unique (m1 rw rcpts) e r); [reflexivity| |].
+    + apply in_m1. repeat split; assumption.
+    + intros o' Hin. apply in_m1 in Hin. destruct Hin as [Ho [Hin _]].
+      exact (handed_once_origin _ _ Hn o' r e Ho Hr Hin He).
+Qed.
+
+(* One pipeline, any 1-to-N rewrite table, any recipients and any results of the next hop: if no
+   address is handed to the next hop twice, every result is reported under the address the client
+   supplied - one per address handed on, in order. *)
+Theorem pipeline_results_under_client_addresses rw rcpts fails :
+  NoDup (pipe_handed [rw] rcpts) ->
+  map fst (pipe_e2e [rw] rcpts fails) = pipe_want [rw] rcpts.
+Proof.
+  intros Hn. rewrite pipe_handed_one in Hn. unfold pipe_e2e.
+  rewrite (translate_levels_one _ (m1 rw rcpts)).
+  2:{ unfold pipe_maps. apply (pipe_maps_one rw rcpts [] []). left. split; reflexivity. }
+  rewrite pipe_handed_one, pipe_want_one. unfold translate. rewrite !map_map. cbn [fst].
+  assert (H : forall l, (forall r, In r l -> In r rcpts) ->
+              map (fun x => orig_of (m1 rw rcpts) x) (flat_map (rw_of rw) l)
+              = flat_map (fun r => map (fun _ => r) (rw_of rw r)) l).
+  { induction l as [|r l IH]; intros Hsub; [reflexivity|]. cbn [flat_map]. rewrite map_app. f_equal.
+    - apply map_ext_in. intros e He. apply orig_of_handed; [exact Hn|apply Hsub; left; reflexivity|exact He].
+    - apply IH. intros r' Hr'. apply Hsub. right. exact Hr'. }
+  apply H. intros r Hr. exact Hr.
+Qed.
